@@ -1,6 +1,7 @@
 package main
 
 import (
+	"sort"
 	"fmt"
 	"go/token"
 	"go/types"
@@ -826,4 +827,353 @@ func ruleRowCarry(p *Prog, r *Result) {
 		}
 	}
 	r.floor("row loops in vector code", nLoops, 20)
+}
+
+// ---------------- REJECTFIRST ----------------
+
+func init() {
+	register("REJECTFIRST", "while a plan is being built (everything BuildPlan reaches before the plan is handed to the caller, including every plan's Init), an error that does not come from the storage layer is produced before the first storage operation: in no function of that phase can control flow from a storage-reaching call to the creation of a non-storage error", ruleRejectFirst)
+}
+
+func ruleRejectFirst(p *Prog, r *Result) {
+	bp := p.MethodByName("Optimizer", "BuildPlan")
+	if bp == nil {
+		r.undecided("anchor: (*Optimizer).BuildPlan not found")
+		return
+	}
+	scope, _, _ := p.rtaClosure([]*ssa.Function{bp}, false)
+	// SE: functions of the phase that can produce an error of their own (not only pass on storage errors)
+	errIdx := func(f *ssa.Function) int {
+		res := f.Signature.Results()
+		for i := res.Len() - 1; i >= 0; i-- {
+			if isErrorType(res.At(i).Type()) {
+				return i
+			}
+		}
+		return -1
+	}
+	var fns []*ssa.Function
+	for f := range scope {
+		if p.InPkg(f) && len(f.Blocks) > 0 {
+			fns = append(fns, f)
+		}
+	}
+	sort.Slice(fns, func(i, j int) bool { return p.FName(fns[i]) < p.FName(fns[j]) })
+	// error origins of a returned error value: the calls whose result it is
+	origins := func(v ssa.Value) (calls []*ssa.Call, other bool) {
+		seen := map[ssa.Value]bool{}
+		var rec func(x ssa.Value)
+		rec = func(x ssa.Value) {
+			if x == nil || seen[x] {
+				return
+			}
+			seen[x] = true
+			switch y := x.(type) {
+			case *ssa.Const:
+			case *ssa.Phi:
+				for _, e := range y.Edges {
+					rec(e)
+				}
+			case *ssa.Extract:
+				rec(y.Tuple)
+			case *ssa.Call:
+				calls = append(calls, y)
+			case *ssa.MakeInterface:
+				// a concrete error value built here: its constructor call, if any
+				if c, ok := y.X.(*ssa.Call); ok {
+					calls = append(calls, c)
+				} else {
+					other = true
+				}
+			case *ssa.ChangeInterface:
+				rec(y.X)
+			case *ssa.UnOp:
+				// load of a local error variable (defer-spilled or captured)
+				if al, ok := y.X.(*ssa.Alloc); ok {
+					for _, sv := range storedInto(al) {
+						rec(sv)
+					}
+				} else {
+					other = true
+				}
+			default:
+				other = true
+			}
+		}
+		rec(v)
+		return
+	}
+	SE := map[*ssa.Function]bool{}
+	for grew := true; grew; {
+		grew = false
+		for _, f := range fns {
+			if SE[f] {
+				continue
+			}
+			ei := errIdx(f)
+			if ei < 0 {
+				continue
+			}
+			for _, b := range f.Blocks {
+				ret := retOf(b)
+				if ret == nil || SE[f] {
+					continue
+				}
+				ev := retVal(ret, ei)
+				if isNilConst(ev) {
+					continue
+				}
+				cs, other := origins(ev)
+				if other {
+					SE[f] = true
+					grew = true
+					continue
+				}
+				for _, c := range cs {
+					own := !p.callReachesStorage(c)
+					for _, g := range p.Callees(c) {
+						if SE[g] {
+							own = true
+						}
+					}
+					if own {
+						SE[f] = true
+						grew = true
+					}
+				}
+			}
+		}
+	}
+	n := 0
+	for _, f := range fns {
+		var stor []ssa.CallInstruction
+		var rejects []*ssa.Call
+		allInstrs(f, func(in ssa.Instruction) {
+			ci, ok := in.(ssa.CallInstruction)
+			if !ok {
+				return
+			}
+			if p.callReachesStorage(ci) {
+				stor = append(stor, ci)
+			}
+		})
+		if len(stor) == 0 {
+			continue
+		}
+		ei := errIdx(f)
+		if ei < 0 {
+			continue
+		}
+		// calls whose error this function returns and which may be a rejection of the statement
+		for _, b := range f.Blocks {
+			ret := retOf(b)
+			if ret == nil {
+				continue
+			}
+			ev := retVal(ret, ei)
+			if isNilConst(ev) {
+				continue
+			}
+			cs, _ := origins(ev)
+			for _, c := range cs {
+				rej := !p.callReachesStorage(c)
+				for _, g := range p.Callees(c) {
+					if SE[g] {
+						rej = true
+					}
+				}
+				if rej {
+					rejects = append(rejects, c)
+				}
+			}
+		}
+		seenRej := map[*ssa.Call]bool{}
+		idx := 0
+		for _, rj := range rejects {
+			if seenRej[rj] {
+				continue
+			}
+			seenRej[rj] = true
+			if p.isRepeatedInit(rj) {
+				// Init of a plan that the callee already initialised successfully: it can only repeat
+				// the verdict given before that callee's first storage operation
+				r.note("repeated_init_"+p.FName(f), p.InstrPos(rj))
+				continue
+			}
+			idx++
+			n++
+			key := fmt.Sprintf("%s|rejection#%d", p.FName(f), idx)
+			bad := ""
+			for _, sc := range stor {
+				if sc == ssa.CallInstruction(rj) {
+					continue
+				}
+				after := false
+				if sc.Block() == rj.Block() {
+					for _, in := range sc.Block().Instrs {
+						if in == ssa.Instruction(sc) {
+							after = true
+							break
+						}
+						if in == ssa.Instruction(rj) {
+							break
+						}
+					}
+					if !after && reachFrom(sc.Block(), nil)[rj.Block()] {
+						after = true
+					}
+				} else if reachFrom(sc.Block(), nil)[rj.Block()] {
+					after = true
+				}
+				if after {
+					bad = fmt.Sprintf("the error produced by %s at %s can be returned after the storage operation %s at %s: the statement is rejected only after storage was accessed", callDesc(p, rj), p.InstrPos(rj), callDesc(p, sc), p.InstrPos(sc))
+				}
+			}
+			r.add(bad == "", key, p.InstrPos(rj), firstNonEmpty(bad, "produced before any storage operation of this function"))
+		}
+	}
+	r.note("functions_in_plan_building_phase", len(fns))
+	r.note("functions_producing_own_errors", len(SE))
+	r.floor("rejection sites in storage-reaching plan-building functions", n, 1)
+}
+
+// isRepeatedInit: c invokes Init on a plan value returned by a same-package function every
+// non-nil result of which has already passed Init inside that function (recursively).
+func (p *Prog) isRepeatedInit(c *ssa.Call) bool {
+	name := ""
+	var recv ssa.Value
+	if c.Call.IsInvoke() {
+		name, recv = c.Call.Method.Name(), c.Call.Value
+	} else if f := c.Call.StaticCallee(); f != nil && f.Signature.Recv() != nil && len(c.Call.Args) > 0 {
+		name, recv = f.Name(), c.Call.Args[0]
+	}
+	if name != "Init" || recv == nil {
+		return false
+	}
+	ex, ok := stripConv(recv).(*ssa.Extract)
+	if !ok || ex.Index != 0 {
+		return false
+	}
+	call, ok := ex.Tuple.(*ssa.Call)
+	if !ok {
+		return false
+	}
+	return p.returnsInitialised(call.Call.StaticCallee(), 0)
+}
+
+func (p *Prog) returnsInitialised(g *ssa.Function, depth int) bool {
+	if g == nil || !p.InPkg(g) || len(g.Blocks) == 0 || depth > 4 {
+		return false
+	}
+	any := false
+	for _, b := range g.Blocks {
+		ret := retOf(b)
+		if ret == nil || len(ret.Results) < 2 {
+			continue
+		}
+		pv := retVal(ret, 0)
+		if isNilConst(pv) {
+			continue
+		}
+		any = true
+		okRet := false
+		base := stripConv(pv)
+		// (a) the result pair of another function that returns initialised plans
+		if ex, ok := base.(*ssa.Extract); ok {
+			if c2, ok := ex.Tuple.(*ssa.Call); ok && p.returnsInitialised(c2.Call.StaticCallee(), depth+1) {
+				okRet = true
+			}
+		}
+		// (b) Init was called on this very value before the return
+		if !okRet {
+			allInstrs(g, func(in ssa.Instruction) {
+				c, ok := in.(*ssa.Call)
+				if !ok || okRet {
+					return
+				}
+				var rv ssa.Value
+				nm := ""
+				if c.Call.IsInvoke() {
+					nm, rv = c.Call.Method.Name(), c.Call.Value
+				} else if f := c.Call.StaticCallee(); f != nil && f.Signature.Recv() != nil && len(c.Call.Args) > 0 {
+					nm, rv = f.Name(), c.Call.Args[0]
+				}
+				if nm == "Init" && rv != nil && stripConv(rv) == base && instrDominates(c, ret) {
+					okRet = true
+				}
+			})
+		}
+		if !okRet {
+			return false
+		}
+	}
+	return any
+}
+
+// ---------------- STMTLIST ----------------
+
+func init() {
+	register("STMTLIST", "the write plans execute the statement's own list: PutPlan.KVPairs is the PUT statement's pair list and RemovePlan.Keys built from a REMOVE statement is its key list, unchanged (or a full copy), never a filtered, reordered or de-duplicated version (every pair is evaluated, so a failing pair fails the statement)", ruleStmtList)
+}
+
+func ruleStmtList(p *Prog, r *Result) {
+	type spec struct{ plan, field, stmt, sfield string }
+	n := 0
+	for _, sp := range []spec{{"PutPlan", "KVPairs", "PutStmt", "KVPairs"}, {"RemovePlan", "Keys", "RemoveStmt", "Keys"}} {
+		for _, fn := range p.Funcs {
+			hasStmt := false
+			for _, pa := range fn.Params {
+				if typeName(pa.Type()) == sp.stmt {
+					hasStmt = true
+				}
+			}
+			idx := 0
+			allInstrs(fn, func(in ssa.Instruction) {
+				st, ok := in.(*ssa.Store)
+				if !ok {
+					return
+				}
+				o, f, base, ok := fieldOfAddr(st.Addr)
+				if !ok || o == nil || o.Obj().Name() != sp.plan || f != sp.field {
+					return
+				}
+				if !hasStmt {
+					// a plan built from something else than a statement of this kind (DELETE's key removal): DELKEYS/RMGUARD
+					if _, fresh := base.(*ssa.Alloc); fresh {
+						return
+					}
+				}
+				n++
+				idx++
+				key := fmt.Sprintf("%s|%s.%s#%d", p.FName(fn), sp.plan, sp.field, idx)
+				v := stripConv(st.Val)
+				okv := false
+				if o2, f2, _, ok := loadedField(v); ok && o2 != nil && o2.Obj().Name() == sp.stmt && f2 == sp.sfield {
+					okv = true
+				}
+				// full copy: append(empty, list...) or slices.Clone(list)
+				if c, ok := v.(*ssa.Call); ok {
+					if b, isB := c.Call.Value.(*ssa.Builtin); isB && b.Name() == "append" && len(c.Call.Args) == 2 {
+						if o2, f2, _, ok := loadedField(stripConv(c.Call.Args[1])); ok && o2 != nil && o2.Obj().Name() == sp.stmt && f2 == sp.sfield {
+							if isNilConst(c.Call.Args[0]) {
+								okv = true
+							}
+							if sl, ok := c.Call.Args[0].(*ssa.Slice); ok {
+								if _, isMk := sl.X.(*ssa.Alloc); isMk {
+									okv = true
+								}
+							}
+						}
+					}
+					if g := c.Call.StaticCallee(); g != nil && g.Name() == "Clone" && g.Pkg != nil && g.Pkg.Pkg.Path() == "slices" && len(c.Call.Args) == 1 {
+						if o2, f2, _, ok := loadedField(stripConv(c.Call.Args[0])); ok && o2 != nil && o2.Obj().Name() == sp.stmt && f2 == sp.sfield {
+							okv = true
+						}
+					}
+				}
+				r.add(okv, key, p.InstrPos(st), fmt.Sprintf("the plan's %s is the statement's %s.%s itself (or a full copy)", sp.field, sp.stmt, sp.sfield))
+			})
+		}
+	}
+	r.floor("write plans built from statements", n, 2)
 }
